@@ -40,12 +40,11 @@ func R23(p *core.Prog) *core.Result {
 		return r
 	}
 	capData(p, r)
-	ctxT := sp.Type("unfoldCtx")
-	if ctxT == nil {
+	ctxNamed := p.Type("gotype", "unfoldCtx")
+	if ctxNamed == nil {
 		r.Undecided("", "gotype.unfoldCtx", "type not found")
 		return r
 	}
-	ctxNamed := ctxT.Type().(*types.Named)
 	sharedUnfolder(p, r, ctxNamed)
 	completionAgree(p, r, sp, ctxNamed)
 	return r
@@ -314,7 +313,7 @@ func (k *cdClient) ctxField(addr ssa.Value) string {
 		case *ssa.FieldAddr:
 			if x.X == k.ctx {
 				st := x.X.Type().Underlying().(*types.Pointer).Elem().Underlying().(*types.Struct)
-				return st.Field(x.Field).Name()
+				return core.FieldName(st, x.Field)
 			}
 			addr = x.X
 		default:
@@ -542,12 +541,12 @@ func restrict(m map[string]map[string]int, field string) map[string]map[string]i
 
 func completionAgree(p *core.Prog, r *core.Result, sp *ssa.Package, ctxNamed *types.Named) {
 	c := &cdCtx{p: p, ctxNamed: ctxNamed, sums: map[*ssa.Function]map[string]map[string]int{}, busy: map[*ssa.Function]bool{}}
-	ifaceObj := sp.Type("unfolder")
-	if ifaceObj == nil {
+	ifaceNamed := p.Type("gotype", "unfolder")
+	if ifaceNamed == nil {
 		r.Undecided(".COMPLETION-AGREE", "gotype.unfolder", "interface not found")
 		return
 	}
-	iface, _ := ifaceObj.Type().Underlying().(*types.Interface)
+	iface, _ := ifaceNamed.Underlying().(*types.Interface)
 	if iface == nil {
 		r.Undecided(".COMPLETION-AGREE", "gotype.unfolder", "not an interface")
 		return
@@ -828,7 +827,7 @@ func completionAgree(p *core.Prog, r *core.Result, sp *ssa.Package, ctxNamed *ty
 					continue
 				}
 				fa, ok := call.Common().Args[0].(*ssa.FieldAddr)
-				if !ok || fa.X != ctx || fa.X.Type().Underlying().(*types.Pointer).Elem().Underlying().(*types.Struct).Field(fa.Field).Name() != "unfolder" {
+				if !ok || fa.X != ctx || core.FieldName(fa.X.Type().Underlying().(*types.Pointer).Elem().Underlying().(*types.Struct), fa.Field) != "unfolder" {
 					continue
 				}
 				var ct types.Type
@@ -918,7 +917,7 @@ func completionAgree(p *core.Prog, r *core.Result, sp *ssa.Package, ctxNamed *ty
 					}
 				}
 				if len(res) != 0 {
-					bad = fmt.Sprintf("%s pushes {%s}; %s.%s removes all of its unfolder frames (completing the value) but moves the stacks by {%s}: {%s} is left behind", core.FuncKey(f), deltaKey(vi), namedOf(tp.Elem()).Obj().Name(), ev, deltaKey(v), deltaKey(res))
+					bad = fmt.Sprintf("%s pushes {%s}; %s.%s removes all of its unfolder frames (completing the value) but moves the stacks by {%s}: {%s} is left behind", core.FuncKey(f), deltaKey(vi), core.TypeName(namedOf(tp.Elem())), ev, deltaKey(v), deltaKey(res))
 				}
 			}
 		}
